@@ -36,8 +36,11 @@ struct Item {
 
 fn run(ctx: &Ctx, out: &mut Out) {
     let types: Vec<Rc<RT>> = {
-        let mut v = types_upto(ctx.tier.pick(2, 3));
+        let mut v = types_upto(ctx.tier.pick(2, 5));
         v.extend([RT::word(2), RT::word(3), RT::sum(&RT::unit(), &RT::word(2)), RT::sum(&RT::word(2), &RT::bit()), RT::prod(&RT::sum(&RT::unit(), &RT::bit()), &RT::bit())]);
+        // (the extras may already be among the enumerated types: one index per type)
+        let mut seen = std::collections::HashSet::new();
+        v.retain(|t| seen.insert(t.clone()));
         v
     };
     let hists = all_hists();
